@@ -34,6 +34,8 @@ def struct_obligations(cells, M, job, st, prefix):
         return [Obl(prefix + '/struct/decodable', True, 'reference decoder cannot follow the saved file: %s' % e)], None, None
     for name, ok, detail in D['checks']:
         O.append(Obl('%s/struct/%s' % (prefix, name), not ok, detail))
+    for name, bad, detail in D['sym_checks']:
+        O.append(Obl('%s/struct/%s' % (prefix, name), bad, detail))
     H = D['H']
     def o(name, bad, detail): O.append(Obl('%s/struct/%s' % (prefix, name), bad, detail))
     o('header.param_block', H['param_block'] != 2 and False, '')
